@@ -25,3 +25,10 @@ Definition chk_c17 (c : val) : val :=
    concurrent-use guard: a crash); a run that ends normally has nothing to report *)
 Definition chk_c18 (c : val) : val :=
   match as_Z (nthv 0 (nthv 1 c)) with 0 => verdict_ok | r => verdict_propfail r (VL []) end.
+
+(* C16, stream attempts waiting for an unreachable target when it is removed: impl ( stuck codes )
+   6: an attempt in flight at removal time did not end ; 3: it did not fail with Unavailable (14) *)
+Definition chk_c16_waiting (c : val) : val :=
+  let impl := nthv 1 c in
+  if negb (Z.eqb (as_Z (nthv 0 impl)) 0) then verdict_propfail 6 (VL [])
+  else if forallb (fun x => Z.eqb (as_Z x) 14) (as_L (nthv 1 impl)) then verdict_ok else verdict_propfail 3 (VL []).
